@@ -272,7 +272,13 @@ func (vm *VM) FindElementWithModule(name *IDName) (Element, *Module, error) {
 	if moduleID >= 0 {
 		extModuleID = moduleID
 	}
-	return elem, vm.moduleGraph.GetModuleByID(extModuleID), nil
+	module := vm.moduleGraph.GetModuleByID(extModuleID)
+	if module == nil {
+		// no module is loaded (e.g. while evaluating an input-variable text): the value
+		// was not bound by any module's code
+		module = NativeCodeModule
+	}
+	return elem, module, nil
 }
 
 // DeclareElement
